@@ -309,6 +309,9 @@ pub struct Case {
     /// queue with frames
     #[serde(default)]
     pub keepalive: [bool; 2],
+    /// step bound of this case (0 = the default `run::STEP_BOUND`); directed families with very many frames raise it
+    #[serde(default)]
+    pub step_bound: u32,
 }
 
 impl Default for BindPolicy {
@@ -335,6 +338,7 @@ impl Default for Case {
             sched_phase: 0,
             bridges: vec![],
             keepalive: [false, false],
+            step_bound: 0,
         }
     }
 }
@@ -359,8 +363,16 @@ pub fn parse_tag(host: &[u8]) -> Option<usize> {
 }
 pub fn dg_host(idx: usize, len: usize) -> Vec<u8> {
     let mut v = format!("d{idx}.").into_bytes();
+    // the host is a byte string, not text: after the tag come octets from the whole range (NUL, >= 0x80, 0xff, invalid UTF-8)
     while v.len() < len {
-        v.push(b'a' + (v.len() % 26) as u8);
+        let k = v.len();
+        v.push(match (idx + k) % 5 {
+            0 => b'a' + (k % 26) as u8,
+            1 => 0x80 | (k as u8).wrapping_mul(37),
+            2 => 0xff,
+            3 => 0x00,
+            _ => 0xc3,
+        });
     }
     v.truncate(len);
     v
